@@ -98,6 +98,12 @@ func (m *Machine) lookupMethod(typ types.Type, meth *types.Func) *ssa.Function {
 }
 
 func (m *Machine) rtPanic(msg string) {
+	// remember where the runtime error happened (for reports)
+	chain := ""
+	for f, n := m.curFrame, 0; f != nil && n < 6; f, n = f.caller, n+1 {
+		chain += " <- " + f.fn.Name()
+	}
+	m.lastPanicSite = chain
 	panic(targetPanic{Iface{T: m.runtimeErrorString, V: ConcStr("runtime error: " + msg)}})
 }
 
